@@ -73,15 +73,18 @@ def run(pid: str, tier: str) -> int:
             # determinism guard: re-execute twice from scratch
             seed, ops = hist
             prefix, op = (seed, list(ops[:-1])), ops[-1]
-            again = [transition(prefix, op) for _ in range(2)]
+            again = [transition(prefix, op) for _ in range(4)]
             sig = [(a["out"], a[which]) for a in again]
-            if sig[0] != sig[1] or not again[0][which]:
-                raise common.HarnessError(f"non-deterministic replay of {hist}: {sig}")
+            # The harness is single-threaded with a fixed hash seed; the only remaining source of
+            # run-to-run variation is the library ordering objects by id().  A violation observed in the
+            # worker is real either way; one that does not reproduce identically is reported as
+            # address-dependent instead of being dropped.
+            unstable = any(x != sig[0] for x in sig) or not again[0][which]
             r.violation(
                 key,
                 f"{op_signature(op)} -> {out}: " + "; ".join(str(d) for d in detail[:3]),
                 {"engine": "E1", "seed_state": seed, "history": _tolist(ops), "outcome": out,
-                 "oracle": which, "detail": detail, "cases": counts[key]},
+                 "oracle": which, "detail": detail, "cases": counts[key], "address_dependent": unstable},
                 n=counts[key],
             )
         for s in res.sample_histories:
